@@ -13,6 +13,12 @@ impl Records {
             map: HashMap::new()
         }
     }
+    /// record numbers in ascending order, so that anything rendered from the map is reproducible
+    fn ordered_keys(&self) -> Vec<usize> {
+        let mut keys: Vec<usize> = self.map.keys().copied().collect();
+        keys.sort_unstable();
+        keys
+    }
     /// add a string as record number `num`, fields should be separated by LF or CRLF.
     pub fn add_record(&mut self,num: usize,fields: &str) {
         self.map.insert(num,fields.to_string());
@@ -103,7 +109,8 @@ impl Records {
             }
         };
         // now insert the actual records, first chunk can always be overwritten
-        for (rec_num,fields) in &self.map {
+        for rec_num in &self.ordered_keys() {
+            let fields = &self.map[rec_num];
             match converter.from_utf8(fields) {
                 Some(data_bytes) => {
                     if data_bytes.len() > self.record_len {
@@ -187,7 +194,8 @@ impl Records {
     /// Put records into the JSON string representation, if indent=0 use unpretty form
     pub fn to_json(&self,indent: Option<u16>) -> String {
         let mut json_map = json::JsonValue::new_object();
-        for (r,l) in &self.map {
+        for r in &self.ordered_keys() {
+            let l = &self.map[r];
             let mut json_array = json::JsonValue::new_array();
             for line in l.lines() {
                 json_array.push(line).expect("error while building JSON array");
@@ -211,7 +219,8 @@ impl Records {
 /// derives `to_string`, so the structure can be converted to `String`.
 impl fmt::Display for Records {
     fn fmt(&self,f: &mut fmt::Formatter<'_>) -> fmt::Result {
-        for (idx,fields) in &self.map {
+        for idx in &self.ordered_keys() {
+            let fields = &self.map[idx];
             write!(f,"Record {}",idx).expect("format error");
             for field in fields.lines() {
                 write!(f,"    {}",field).expect("format error");
